@@ -20,7 +20,7 @@ def registry : List Entry := [
   { kind := "format", name := "extxyz", hasPrepare := false,
     fns := [("load_one", [("guaranteed", ["title"]), ("ifpresent", ["atcoords", "atgradient", "atmasses", "atnums", "cellvecs", "charge", "energy", "extra"])]), ("load_many", [("guaranteed", ["title"]), ("ifpresent", ["atcoords", "atgradient", "atmasses", "atnums", "cellvecs", "charge", "energy", "extra"])])] },
   { kind := "format", name := "fchk", hasPrepare := true,
-    fns := [("load_one", [("guaranteed", ["atcharges", "atcoords", "atnums", "atcorenums", "lot", "mo", "obasis", "obasis_name", "run_type", "title"]), ("ifpresent", ["energy", "atfrozen", "atgradient", "athessian", "atmasses", "one_rdms", "extra", "moments"])]), ("load_many", [("guaranteed", ["atcoords", "atgradient", "atnums", "atcorenums", "energy", "extra", "title"]), ("ifpresent", [])]), ("dump_one", [("required", ["atnums", "atcorenums"]), ("optional", ["atcharges", "atcoords", "atfrozen", "atgradient", "athessian", "atmasses", "charge", "energy", "lot", "mo", "one_rdms", "obasis_name", "extra", "moments"])])] },
+    fns := [("load_one", [("guaranteed", ["atcharges", "atcoords", "atnums", "atcorenums", "lot", "mo", "obasis", "obasis_name", "title"]), ("ifpresent", ["energy", "atfrozen", "atgradient", "athessian", "atmasses", "one_rdms", "extra", "moments", "run_type"])]), ("load_many", [("guaranteed", ["atcoords", "atgradient", "atnums", "atcorenums", "energy", "extra", "title"]), ("ifpresent", [])]), ("dump_one", [("required", ["atnums", "atcorenums"]), ("optional", ["atcharges", "atcoords", "atfrozen", "atgradient", "athessian", "atmasses", "charge", "energy", "lot", "mo", "one_rdms", "obasis_name", "extra", "moments"])])] },
   { kind := "format", name := "fcidump", hasPrepare := false,
     fns := [("load_one", [("guaranteed", ["core_energy", "one_ints", "nelec", "spinpol", "two_ints"]), ("ifpresent", [])]), ("dump_one", [("required", ["one_ints", "two_ints"]), ("optional", ["core_energy", "nelec", "spinpol"])])] },
   { kind := "format", name := "gamess", hasPrepare := false,
